@@ -184,7 +184,9 @@ impl LogState {
             };
         let mut delay = Duration::from_millis(10);
         let mut was_locked = is_locked(ps, info.as_ref().map(|&(fid, ..)| fid))?;
-        let mut line_head = String::new();
+        // Raw bytes: a script may write anything to stderr, and a multi-byte
+        // character may reach the log in two pieces.
+        let mut line_head: Vec<u8> = Vec::new();
         let mut width = tty_width();
         loop {
             if f.is_none() {
@@ -204,11 +206,11 @@ impl LogState {
                 // In 'follow' mode, might get a line with no trailing \n
                 // (eg. when ./configure is halfway through a test), which we
                 // deal with below.
-                let mut line = String::new();
-                f.read_line(&mut line)?;
+                let mut line: Vec<u8> = Vec::new();
+                f.read_until(b'\n', &mut line)?;
                 line
             } else {
-                String::new()
+                Vec::new()
             };
             if line.is_empty() && (!matches.is_present("follow") || !was_locked) {
                 // file not locked, and no new lines: done
@@ -260,15 +262,18 @@ impl LogState {
             }
             self.total_lines += 1;
             delay = Duration::from_millis(10);
-            if !line.ends_with('\n') {
-                line_head.push_str(&line);
+            if !line.ends_with(b"\n") {
+                line_head.extend_from_slice(&line);
                 continue;
             }
             if !line_head.is_empty() {
-                line_head.push_str(&line);
-                line = String::new();
+                line_head.extend_from_slice(&line);
+                line = Vec::new();
                 mem::swap(&mut line, &mut line_head);
             }
+            // Only a complete line is decoded; bytes that are not UTF-8 are
+            // shown as U+FFFD instead of ending the viewer.
+            let line = String::from_utf8_lossy(&line).into_owned();
             if !self.status.is_empty() {
                 io::stdout().flush()?;
                 eprint!("\r{:<width$.width$}\r", "", width = width);
@@ -386,7 +391,7 @@ impl LogState {
         }
         if !line_head.is_empty() {
             // partial line never got terminated
-            print!("{}", line_head);
+            print!("{}", String::from_utf8_lossy(&line_head));
         }
         if t.as_str() != "-" {
             let last = self.depth.pop();
